@@ -415,6 +415,9 @@ func (ss *StyledString) Encode() string {
 		cursor = next.Style
 		bldr.WriteString(next.Grapheme)
 	}
+	if cursor.Hyperlink != "" {
+		_, _ = bldr.WriteString(tparm(osc8, "", ""))
+	}
 	empty := Style{}
 	if cursor != empty {
 		bldr.WriteString(sgrReset)
